@@ -30,10 +30,11 @@ from midgard import parsers
 from midgard.dev import log
 from midgard.dev import plugins
 from midgard.gnss import gnss
+from midgard.parsers._parser import Parser
 
 
 @plugins.register
-def get_rinex2_or_rinex3(file_path: pathlib.PosixPath, encoding: str = None, **parser_args) -> "Parser":
+def get_rinex2_or_rinex3(file_path: pathlib.PosixPath, encoding: str = None, **parser_args) -> Parser:
     """Use either Rinex2NavParser or Rinex3NavParser for reading orbit files in format 2.11 or 3.03.
 
     Firstly the RINEX file version is read. Based on the read version number it is decided, which Parser should be
